@@ -6,7 +6,7 @@ use crate::drive::*;
 use crate::explore::*;
 use serde_json::{Value, json};
 
-const RULE: &str = "growth inputs (unterminated tag / attribute value / comment / doctype, long tag names, nesting depth d with selectors, stack grow/pop/re-grow histories followed by a buffered token, many chunks) at 13 sizes x handler sets x chunkings (one write, byte-wise, 7-byte and 64-byte chunks) x preallocation {0, min(16,M), M/2} x EVERY limit M from 0 to M0+64 (M0 = first limit under which the run succeeds); plus every F<=k input x schedules x every M in 0..=M0+8. Oracle: each call returns Ok or MemoryLimitExceeded (never a panic); accounted usage (hook) <= M after every successful call; REAL capacity of parsing buffer + open-element stack (hook) <= M after every successful call; bytes_in - bytes_out <= M in pass-through; success is monotone in M with identical output; same (M, config, schedule) twice gives the same result. non-trivial = distinct (case, M) where the call failed with MemoryLimitExceeded";
+const RULE: &str = "growth inputs (unterminated tag / attribute value / comment / doctype, long tag names, nesting depth d with selectors, stack grow/pop/re-grow histories followed by a buffered token, many chunks) at 13 sizes x handler sets x chunkings (one write, byte-wise, 7-byte and 64-byte chunks) x preallocation {0, min(16,M), M/2} x EVERY limit M from 0 to M0+64 (M0 = first limit under which the run succeeds); plus every F<=k input x schedules x every M in 0..=M0+8. Oracle: each call returns Ok or MemoryLimitExceeded (never a panic); accounted usage (hook) <= M after every successful call; REAL capacity of parsing buffer + open-element stack (hook) <= M after every successful call; bytes_in - bytes_out <= M in pass-through; success is monotone in M with identical output; rewrite_str with the same settings succeeds / fails exactly like one write + end; same (M, config, schedule) twice gives the same result. non-trivial = distinct (case, M) where the call failed with MemoryLimitExceeded";
 
 #[derive(Clone)]
 struct Case {
@@ -31,6 +31,21 @@ fn one(base: &Prepared, input: &[u8], chunk: usize, m: usize, pre: usize) -> (Ru
     let rr = run(&p, &chunks, true);
     if let Some(msg) = rr.panicked() {
         return (rr.clone(), Some(format!("panic under limit {m} (prealloc {pre}): {msg}")));
+    }
+    // rewrite_str with the same settings is one write + end: it fails under the same limits
+    if chunk == 0 && p.cfg.encoding == "UTF-8" {
+        if let Ok(text) = std::str::from_utf8(input) {
+            let (res, _) = run_rewrite_str(&p, text);
+            match (&res, rr.all_ok()) {
+                (Ok(out), true) if out.as_bytes() != rr.out.as_slice() => {
+                    return (rr.clone(), Some(format!("rewrite_str under limit {m} gives another output than write+end")));
+                }
+                (Ok(_), false) => return (rr.clone(), Some(format!("rewrite_str succeeds under limit {m} (prealloc {pre}) although write+end with the same settings fails with MemoryLimitExceeded"))),
+                (Err((k, msg)), true) => return (rr.clone(), Some(format!("rewrite_str fails under limit {m} (error kind {k}: {msg}) although write+end succeeds"))),
+                (Err((k, msg)), false) if *k != ERR_MEM => return (rr.clone(), Some(format!("rewrite_str under limit {m} failed with {msg} instead of MemoryLimitExceeded"))),
+                _ => {}
+            }
+        }
     }
     if let Some((i, r)) = rr.first_failure() {
         if r.err_kind() != Some(ERR_MEM) {
